@@ -8,12 +8,12 @@ package c04
 
 import (
 	"bytes"
-	"net/url"
 	"context"
 	"errors"
 	"fmt"
 	"log"
 	"log/slog"
+	"net/url"
 	"os"
 	"path/filepath"
 	"regexp"
@@ -87,6 +87,10 @@ type BranchSpec struct {
 	Sink    string `json:"sink"` // lock | buffered | file | combine | failing
 	BufSize int    `json:"buf_size,omitempty"`
 	Warn    bool   `json:"warn_and_above,omitempty"`
+	// Sampled: the branch's core sits behind a sampler that really drops (first 1, then nothing, per
+	// message bucket): what it keeps depends on arrival order and is not judged; what the other
+	// branches receive must not depend on its decisions
+	Sampled bool `json:"sampled,omitempty"`
 }
 
 // Spec describes one run.
@@ -123,6 +127,9 @@ func genSpec(seed int64, i int) Spec {
 	}
 	if g.P(1, 3) {
 		s.StopMid = g.Range(50, 3000)
+	}
+	if g.P(1, 4) {
+		s.Branches = append(s.Branches, BranchSpec{Enc: "json", Sink: "lock", Sampled: true})
 	}
 	if nb > 1 && g.P(1, 3) { // a failing branch in front: the others must still receive everything
 		s.Branches = append([]BranchSpec{{Enc: "json", Sink: "failing"}}, s.Branches...)
@@ -253,7 +260,11 @@ func build(s Spec, reference bool) (*env, error) {
 			e.streams = append(e.streams, []func() []byte{func() []byte { return sharedSink.buf }, func() []byte { return other.buf }})
 			continue
 		}
-		cores = append(cores, zapcore.NewCore(encoder(b.Enc), ws, lvl))
+		if b.Sampled {
+			cores = append(cores, zapcore.NewSamplerWithOptions(zapcore.NewCore(encoder(b.Enc), ws, lvl), time.Hour, 1, 0))
+		} else {
+			cores = append(cores, zapcore.NewCore(encoder(b.Enc), ws, lvl))
+		}
 		e.streams = append(e.streams, readers)
 	}
 	var core zapcore.Core
@@ -274,6 +285,11 @@ func build(s Spec, reference bool) (*env, error) {
 	e.sharedRefl = e.logger.With(zap.Reflect("settings", settings{"shared", []int{80}, map[string]string{"k": "v"}}), zap.Namespace("r"))
 	return e, nil
 }
+
+type errGroup struct{ causes []error }
+
+func (g errGroup) Error() string   { return fmt.Sprintf("group of %d", len(g.causes)) }
+func (g errGroup) Errors() []error { return g.causes }
 
 type obj struct{ g, s int }
 
@@ -365,14 +381,16 @@ func emit(e *env, s *Spec, c *wctx, gi, seq int) int {
 		}
 		c.child.Error(msg, zap.String("p", p))
 	case 11:
-		e.logger.Named("n" + strconv.Itoa(gi)).Info(msg, zap.String("p", p))
+		e.logger.Named("n"+strconv.Itoa(gi)).Info(msg, zap.String("p", p))
 	case 12:
 		if c.lazy == nil {
 			c.lazy = e.logger.WithLazy(zap.Object("lazy", obj{gi, 0}))
 		}
 		c.lazy.Info(msg, zap.String("p", p))
 	case 13:
-		e.logger.Info(msg, zap.Reflect("r", map[string]int{"g": gi}), zap.Error(fmt.Errorf("err %s", id)), zap.Errors("es", []error{errSink, errSink}))
+		// error groups: one with a single cause, one with several (their elements are pooled)
+		e.logger.Info(msg, zap.Reflect("r", map[string]int{"g": gi}), zap.Error(fmt.Errorf("err %s", id)), zap.Errors("es", []error{errSink, errSink}),
+			zap.NamedError("lone", errGroup{[]error{fmt.Errorf("lone cause %s", id)}}), zap.NamedError("many", errGroup{[]error{fmt.Errorf("cause a %s", id), nil, fmt.Errorf("cause b %s", id)}}))
 	case 14:
 		e.sugar.With("w", gi).Warnw(msg, "p", p)
 	case 15:
@@ -681,6 +699,10 @@ func runOne(r *ev.Run, i int) bool {
 		if bs.Sink == "failing" {
 			r.Count("runs_with_failing_first_branch", 1)
 			continue // its own content is not judged; the branches after it are
+		}
+		if bs.Sampled {
+			r.Count("runs_with_dropping_sampled_last_branch", 1)
+			continue
 		}
 		for si, rd := range e.streams[b] {
 			stream := rd()
